@@ -46,6 +46,8 @@ func TypeOf(name string) reflect.Type {
 		return scopeType
 	case "provider":
 		return providerType
+	case "void":
+		return reflect.TypeOf(struct{}{}) // the service type godi gives to functions without results
 	}
 	t, ok := poolTypes[name]
 	if !ok {
@@ -95,6 +97,10 @@ type Reg struct {
 	// NestedInChild: the nested resolutions are issued on a fresh child scope the constructor creates
 	// from its injected Scope / Provider (and closes again), e.g. a warm-up step.
 	NestedInChild bool `json:"nested_in_child,omitempty"`
+	// CloseScope: the instances remember the Scope they were injected with and their Close method
+	// closes that scope again (a unit of work forwarding Close to its scope); the result of that
+	// inner Close is recorded.
+	CloseScope bool `json:"close_scope,omitempty"`
 	// ChildAt: on this invocation (1-based; 0 = never) the constructor creates a child scope on its
 	// injected Scope while it runs, with a nil context (user code calling back into the container).
 	ChildAt int `json:"child_at,omitempty"`
@@ -175,6 +181,10 @@ type Inst struct {
 	Closes   []CloseRec
 	w        *World
 	Sentinel int // must stay 0: nothing may touch instances without Close
+	// reclose: scope this instance closes again from its own Close method; the errors those inner
+	// Close calls returned
+	reclose    godi.Scope
+	RecloseErr []error
 }
 
 type CloseRec struct {
@@ -191,6 +201,12 @@ func (i *Inst) Label() string {
 
 func (i *Inst) doClose() error {
 	vsched.Yield("close")
+	if i.reclose != nil {
+		err := i.reclose.Close()
+		i.w.mu.Lock()
+		i.RecloseErr = append(i.RecloseErr, err)
+		i.w.mu.Unlock()
+	}
 	w := i.w
 	w.mu.Lock()
 	defer w.mu.Unlock()
@@ -673,6 +689,13 @@ func (w *World) Body(r *Reg, ft reflect.Type) func(args []reflect.Value) []refle
 						continue // this output stays a typed nil
 					}
 					in, val := w.newInst(r, call, i, concAt(o, call.Serial))
+					if r.CloseScope {
+						for _, a := range call.Args {
+							if a.Kind == "scope" {
+								in.reclose, _ = a.Ref.(godi.Scope)
+							}
+						}
+					}
 					call.Outs = append(call.Outs, in)
 					v := reflect.New(ft.Out(i)).Elem()
 					v.Set(reflect.ValueOf(val))
